@@ -261,7 +261,7 @@ def shard(tag, first, docs, size, combos, strmax, w):
     run_bin("c19", ["record", "--seed", vlib.seed(), "--first", first, "--docs", docs, "--size", size, "--combos", combos,
                     "--strmax", strmax, "--out", tr])
     r = tlc("Trace_SaveSink.tla", "Trace_SaveSink.cfg", workers=1, env={"TRACE": tr}, deque=True, timeout=2400,
-            name="c19-trace-" + tag, xmx="6g")
+            name="c19-trace-" + tag, xmx="3g")
     return tag, first, docs, size, combos, strmax, tr, r
 
 
